@@ -69,6 +69,8 @@ type e1Spec struct {
 	Entropy   string `json:"entropy"`
 	Checksum  uint   `json:"checksum"`
 	Parts     []int  `json:"parts,omitempty"` // Write partition (enc)
+	Skip      bool   `json:"skip_blocks,omitempty"` // ctx skipBlocks
+	Magic     bool   `json:"magic,omitempty"`       // the data starts with the signature of a compressed format
 	// fault injection (panic with an error inside a shared-stream op, or in the compute phase)
 	FaultThread int    `json:"fault_thread"` // -1 none; controlled thread id (tasks are 1.. in spawn order)
 	FaultSite   string `json:"fault_site,omitempty"`
@@ -102,7 +104,7 @@ func e1data(blocks, tail int, salt byte) []byte {
 }
 
 func (sp *e1Spec) params(jobs uint) Params {
-	p := Params{Transform: sp.Transform, Entropy: sp.Entropy, Block: e1B, Jobs: jobs, Checksum: sp.Checksum, Hint: sp.Hint}
+	p := Params{Transform: sp.Transform, Entropy: sp.Entropy, Block: e1B, Jobs: jobs, Checksum: sp.Checksum, Hint: sp.Hint, Skip: sp.Skip}
 	if sp.Hint == -2 {
 		p.Hint = int64(sp.Blocks*e1B + sp.Tail)
 	}
@@ -244,6 +246,9 @@ type e1Prep struct {
 func e1Prepare(sp *e1Spec, salt byte) (*e1Prep, error) {
 	p := &e1Prep{limit: -1}
 	p.data = e1data(sp.Blocks, sp.Tail, salt)
+	if sp.Magic {
+		copy(p.data, []byte{'P', 'K', 3, 4, 20, 0, 0, 0})
+	}
 	ej := sp.EncJobs
 	if ej == 0 {
 		ej = 1
